@@ -92,7 +92,7 @@ class Ctx:
         """compile /verif/harness sources against the freshly built library.  Rebuilt when any
         dependency (incl. /repo headers) or the library changed."""
         b = self.build(flavour)
-        outdir = os.path.join(ROOT, ".build", "harness-" + flavour)
+        outdir = os.path.join(ROOT, ".build", "harness-" + os.path.basename(b))
         os.makedirs(outdir, exist_ok=True)
         exe = os.path.join(outdir, name)
         dep = exe + ".d"
